@@ -84,6 +84,8 @@ def run(src, tier="quick", props=None):
                                env=dict(os.environ, VERIF_REPO=wt, VERIF_EVIDENCE_SUFFIX=".seeded"))
             lines = [l for l in r.stdout.splitlines() if l.startswith(("VIOLATION", "MACHINERY"))]
             res[pid] = {"exit": r.returncode, "lines": lines[:2]}
+            if r.returncode == 2:      # machinery failure: keep the reason
+                res[pid]["stderr"] = (r.stdout[-300:] + " | " + r.stderr[-1200:])
     finally:
         drop(wt)
     print(json.dumps({"name": os.path.basename(src.rstrip("/")), "results": res}))
